@@ -353,6 +353,25 @@ theorem safe_processReplacementMarker {n} (m : Marker) : Safe n (processReplacem
 def StepPost (st : LoopSt) (pos : Nat) (st' : LoopSt) : Prop :=
   ∃ (m : Marker) (t : List Char), m.position = pos ∧ st' = { out := st.out ++ t, markers := st.markers ++ [m], last := '[' }
 
+theorem safe_decideTrim {n} (hadWs isRepl : Bool) (m : Marker) : Safe n (decideTrim hadWs isRepl m) Triv := by
+  unfold decideTrim
+  split
+  · split
+    · exact Safe.pure _ (fun _ => trivial)
+    · exact Safe.fail
+    · exact Safe.pure _ (fun _ => trivial)
+  · exact Safe.pure _ (fun _ => trivial)
+
+theorem safe_trimOne {n} (trim : Bool) : Safe n (trimOne trim) Triv := by
+  unfold trimOne
+  refine Safe.bind' safe_peekRune fun c => ?_
+  split
+  · refine Safe.bind' safe_readRune fun o => ?_
+    split
+    · exact Safe.pure _ (fun _ => trivial)
+    · exact safe_incSrc
+  · exact Safe.pure _ (fun _ => trivial)
+
 theorem safe_markerStep (pfuel : Nat) (st : LoopSt) : Safe pfuel (markerStep pfuel st) (StepPost st) := by
   unfold markerStep
   refine Safe.bind (safe_parseAttributeMarker pfuel) fun m => ?_
@@ -362,20 +381,8 @@ theorem safe_markerStep (pfuel : Nat) (st : LoopSt) : Safe pfuel (markerStep pfu
   · split
     · exact safe_processReplacementMarker _
     · exact Safe.pure _ (fun _ => trivial)
-  refine Safe.bind' (V1 := Triv) ?_ fun trim => ?_
-  · split
-    · split
-      · exact Safe.pure _ (fun _ => trivial)
-      · exact Safe.fail
-      · exact Safe.pure _ (fun _ => trivial)
-    · exact Safe.pure _ (fun _ => trivial)
-  refine Safe.bind' safe_peekRune fun c => ?_
-  split
-  · refine Safe.bind' safe_readRune fun o => ?_
-    split
-    · exact Safe.pure _ (fun pos h => ⟨m, replText.toList, h, rfl⟩)
-    · refine Safe.bind' safe_incSrc fun _ => ?_
-      exact Safe.pure _ (fun pos h => ⟨m, replText.toList, h, rfl⟩)
-  · exact Safe.pure _ (fun pos h => ⟨m, replText.toList, h, rfl⟩)
+  refine Safe.bind' (safe_decideTrim _ _ _) fun trim => ?_
+  refine Safe.bind' (safe_trimOne _) fun _ => ?_
+  exact Safe.pure _ (fun pos h => ⟨m, replText.toList, h, rfl⟩)
 
 end Ysgo.Markup
